@@ -100,6 +100,14 @@ def check(ctx):
         sess.append(rwgen.session_episode(ctx.rng, pos.replace("sl", "sl.1000.%d" % L), limit=L))
     d.check(sess, oracle=lambda e, o: rwgen.session_oracle(e, o) or [], label="sizelimit-session")
     ctx.cov["session_episodes"] = len(sess)
+    # size_limit where cmd/helios puts it (buildHandler), incl. requests that offer a protocol upgrade
+    from . import c17
+    overlay = C.make_overlay(ctx, clock_pkgs=[], harness_pkgs=["cmd/helios"], hmap={"cmd/helios": "helios"})
+    hel = C.go_test_build(ctx, "cmd/helios", overlay, name="helios")
+    dfe = C.Differential(ctx, hel, timeout=600)
+    fronts = [c17.front_episode(ctx.rng) for _ in range(200 if ctx.thorough() else 40)]
+    dfe.check(fronts, oracle=c17.front_oracle, label="sizelimit-front")
+    ctx.cov["front_end_episodes"] = len(fronts)
     nontriv = set()
     hit413 = trunc = 0
     if bad == 0:
